@@ -77,14 +77,15 @@ def state_fingerprint(p):
 
 
 def run_history(hist, checks):
-    """-> failures.  checks subset of {'C06','C10','C11','C12','C13','C15'}"""
+    """-> failures.  checks subset of {'C06','C10','C11','C12','C13','C14','C15'}"""
     fails = []
     st = dict(hist['settings'])
     p = IP.new_plugin(**PS.Run.settings_dict(st))
     p._plugin_manager.messages = []
     active = False                 # reference lifecycle
     regs = []                      # reference registry: list of dicts as the API would report them
-    refpos = bool(hist.get('refpos')) and 'C15' in checks
+    refpos = bool(hist.get('refpos')) and ('C15' in checks or 'C03' in checks)
+    ref_on = True                  # reference reading of the @-command action table of the settings in force: is exclusion switched on?
     if refpos:
         # reference printers: U is fed the file's own commands, P what the plugin lets through (and what the hooks contribute)
         import refprinter, reader, oracles as O
@@ -103,6 +104,23 @@ def run_history(hist, checks):
         kind = ev[0]
         if kind == 'settings':
             st = dict(ev[1])
+        if 'C14' in checks:
+            if kind == 'event' and ev[1] == 'PRINT_STARTED':
+                ref_on = True
+            if kind == 'at' and active and not (ev[2] if len(ev) > 2 else False):
+                parts_ = ev[1].split(None, 1)
+                acts_ = PS.matched_actions(st, parts_[0][1:], parts_[1] if len(parts_) > 1 else '')
+                for a_ in acts_:
+                    ref_on = (a_ == 'AtEnable')
+                if bool(p.state.isExclusionEnabled()) != ref_on:
+                    fails.append(fail('after %r (actions that apply by the settings: %r) exclusion should be %s, the plugin has it %s'
+                                      % (ev[1], acts_, 'on' if ref_on else 'off', 'on' if p.state.isExclusionEnabled() else 'off'), k, hist, 'C14:action-table'))
+                    ref_on = bool(p.state.isExclusionEnabled())
+                if not ref_on and p.state.excluding:
+                    fails.append(fail('after %r exclusion is off but an episode is still open' % (ev[1],), k, hist, 'C14:episode-open'))
+            if kind == 'cmd' and active and not ref_on and (p.state.excluding or r == (None,) or r == [None]):
+                # (an owed recovery may still be made up in front of the first extruding move; nothing is dropped and no episode opens)
+                fails.append(fail('exclusion is off, yet %r was answered with %r (episode open: %s)' % (ev[1], r, p.state.excluding), k, hist, 'C14:not-verbatim'))
         if refpos and kind == 'event' and ev[1] == 'PRINT_STARTED':
             ref_enabled, ref_excluding = True, False
         if refpos and kind == 'at' and active and not (ev[2] if len(ev) > 2 else False):
@@ -124,6 +142,17 @@ def run_history(hist, checks):
                 outs_ = [c for c in r if isinstance(c, str)]
             for c in outs_:
                 P.execute(c)
+            if 'C03' in checks and kind == 'cmd' and active and excl_before and not p.state.excluding:
+                # a move out of the region closed the episode: the printer stands where the file assumes it to be
+                COUNTS['C03:resync'] = COUNTS.get('C03:resync', 0) + 1
+                if not (O.close(P.x, U.x) and O.close(P.y, U.y) and O.close(P.z, U.z) and O.close(P.e, U.e)):
+                    fails.append(fail('after %r closed the episode the printer stands at (%s, %s, %s, E%s) but the file assumes (%s, %s, %s, E%s)'
+                                      % (ev[1], float(P.x), float(P.y), float(P.z), float(P.e), float(U.x), float(U.y), float(U.z), float(U.e)), k, hist, 'C03:plugin-resync'))
+            if 'C03' in checks and kind == 'cmd' and active and not excl_before and not p.state.excluding and ref_enabled and r is not None \
+                    and c_ is not None and c_.code in ('G0', 'G1') and (c_.get('X') is not None or c_.get('Y') is not None) and not any(exact_in(d, U.x, U.y) for d in before_regs):
+                # no episode before or after, the file's move ends outside every region: it reaches the printer (tracking kept while exclusion was off)
+                if not any(isinstance(c, str) and c == ev[1] for c in (r if isinstance(r, (list, tuple)) else [])):
+                    fails.append(fail('%r ends outside every region at (%s, %s) and no episode is open, yet it was answered with %r' % (ev[1], float(U.x), float(U.y), r), k, hist, 'C03:plugin-tracking'))
         # ---------------- reference lifecycle (C11)
         was_active = active
         if kind == 'event':
